@@ -57,6 +57,11 @@ type Plan struct {
 	Log bool
 	// Rel makes logged paths relative to this directory (stable across scratch locations).
 	Rel string
+	// NotifyAt / Notify: right before the k-th mutating operation proceeds, Notify is called (once). The
+	// harness uses it to deliver an asynchronous event - a context cancellation - at an exact point of the
+	// file-system protocol; the operation itself is not disturbed.
+	NotifyAt int
+	Notify   func()
 }
 
 type state struct {
@@ -197,6 +202,11 @@ func mutate(kind, path string, nbytes int, followLink bool) (v verdict, partial 
 			return vTorn, st.plan.FreezeInWrite, &fs.PathError{Op: kind, Path: path, Err: ErrCrashed}
 		}
 		return vFail, 0, &fs.PathError{Op: kind, Path: path, Err: ErrCrashed}
+	}
+	if st.plan.NotifyAt == st.n && st.plan.Notify != nil {
+		f := st.plan.Notify
+		st.plan.Notify = nil
+		f()
 	}
 	if st.plan.FailOp == st.n {
 		st.firedFail = true
